@@ -19,7 +19,7 @@
    changes, all other elements and their order stay"). *)
 From Coq Require Import List ZArith Bool Arith Lia.
 From SC Require Import Base.Res Base.PyList Inst.Heap Inst.ClassTable Inst.Model Inst.Canon Inst.Abs
-  Inst.SpecHelpers Inst.ElemProofs Inst.RefineProofs Inst.CopyProofs Inst.ElemRefineDep Inst.ElemRefine Inst.ElemRefine2 Inst.ElemRefine3 Inst.ElemRefine4 Inst.ElemRefine5 Inst.ElemRefine6 Inst.ElemRefine7 Inst.ElemRefine8 Inst.ElemRefine9 Inst.ElemRefine10 Inst.ElemRefine11 Inst.ElemRefineGuard.
+  Inst.SpecHelpers Inst.ElemProofs Inst.RefineProofs Inst.CopyProofs Inst.ElemRefineDep Inst.ElemRefine Inst.ElemRefine2 Inst.ElemRefine3 Inst.ElemRefine4 Inst.ElemRefine5 Inst.ElemRefine6 Inst.ElemRefine7 Inst.ElemRefine8 Inst.ElemRefine9 Inst.ElemRefine10 Inst.ElemRefine11 Inst.ElemRefine12 Inst.ElemRefineGuard.
 Import ListNotations.
 Open Scope nat_scope.
 
@@ -189,10 +189,10 @@ Proof. intros. split; [now apply py_eq_refl_hashable|now apply py_eq_sym_hashabl
                 element type without spec class, no item preparer, not shared with another attribute
      receiver   flat instance of an unfrozen class without invalidated_by
      element    a proper scalar (conforming or not: ValueError is part of the statement)
-   MISSING: update_/transform_/without_<item> and the dict / set families (their
-   extractor/inserter pairs are tied to the implementation by the exhaustive
-   correspondence scope), copy-on-write flag for element helpers (protect = deepcopy
-   of the container: CopyProofs.dc_scalar_obj), spec elements (layer (iv)). *)
+   The other helpers, the dict / set families, the copy-on-write flag, the missing
+   container and item preparers follow below (C06_list_without_item_refines_partial ...
+   C06_update_item_preparer_refine_guarded_partial); what is STILL MISSING for the full
+   statement is listed above C06_elem_helpers_refine_guarded_partial. *)
 Theorem C06_list_with_item_refines_partial :
   forall ct h0 l a c d k sp s lc xs ity,
   nth_error (heap s) l = Some (OInst c d) -> lookup_cls ct c = Some k -> lookup_attr k a = Some sp ->
@@ -670,6 +670,44 @@ Proof.
   - intros voi Hv. now apply without_item_set_missing_guarded.
 Qed.
 
+(* ... and in the DEFAULT calling convention (Inst/ElemRefine12.v): with_<item> / without_<item>
+   without _inplace on an attribute that holds nothing (missing_copy_guard: frozen classes
+   included) -- `A().with_x(1)` --: the empty container is created and edited, the receiver is
+   copied and the copy holds the new container; copy_refines_spec: fresh result, old heap
+   untouched, abstraction of the result = spec_helper, error classes. *)
+Theorem C06_elem_helpers_missing_container_copy_refine_guarded_partial : forall ct h0 s l a,
+  (missing_copy_guard ct s l a KList = true ->
+     (forall idx v ins, plain_items ct s l a = true -> vscalar v = true ->
+        (idx = VMissing \/ exists i, idx = VInt i) ->
+        copy_refines_spec ct h0 s l (HWithItem a) (mkh [v] false true idx ins None None [] None)
+                          (SWithItem a) (mkah [abs0 v] false true (abs0 idx) ins None None [] None)) /\
+     (forall voi bi, nonref voi = true ->
+        copy_refines_spec ct h0 s l (HWithoutItem a) (mkh [voi] false true VMissing false bi None [] None)
+                          (SWithoutItem a) (mkah [abs0 voi] false true AMissing false bi None [] None))) /\
+  (missing_copy_guard ct s l a KDict = true ->
+     (forall key v, plain_items ct s l a = true -> nonref key = true -> vscalar v = true ->
+        copy_refines_spec ct h0 s l (HWithItem a) (mkh [key; v] false true VMissing false None None [] None)
+                          (SWithItem a) (mkah [abs0 key; abs0 v] false true AMissing false None None [] None)) /\
+     (forall key, nonref key = true ->
+        copy_refines_spec ct h0 s l (HWithoutItem a) (mkh [key] false true VMissing false None None [] None)
+                          (SWithoutItem a) (mkah [abs0 key] false true AMissing false None None [] None))) /\
+  (missing_copy_guard ct s l a KSet = true ->
+     (forall v, plain_items ct s l a = true -> vscalar v = true ->
+        copy_refines_spec ct h0 s l (HWithItem a) (mkh [v] false true VMissing false None None [] None)
+                          (SWithItem a) (mkah [abs0 v] false true AMissing false None None [] None)) /\
+     (forall voi, nonref voi = true ->
+        copy_refines_spec ct h0 s l (HWithoutItem a) (mkh [voi] false true VMissing false None None [] None)
+                          (SWithoutItem a) (mkah [abs0 voi] false true AMissing false None None [] None))).
+Proof.
+  intros ct h0 s l a. split; [|split]; intro G; split.
+  - intros idx v ins P Hv Hi. now apply with_item_list_missing_copy_guarded.
+  - intros voi bi Hv. now apply without_item_list_missing_copy_guarded.
+  - intros key v P Hk Hv. now apply with_item_dict_missing_copy_guarded.
+  - intros key Hk. now apply without_item_dict_missing_copy_guarded.
+  - intros v P Hv. now apply with_item_set_missing_copy_guarded.
+  - intros voi Hv. now apply without_item_set_missing_copy_guarded.
+Qed.
+
 (* non-vacuity of missing_guard: an instance of the example class holding nothing *)
 Example C06_missing_guard_examples :
   missing_guard ex_ct ex_state_missing 0 1 KList = true /\ missing_guard ex_ct ex_state_missing 0 2 KDict = true /\
@@ -683,7 +721,11 @@ Example C06_missing_guard_examples :
   fst (run_helper ex_ct 0 (HWithoutItem 3) (mkh [VInt 0] true true VMissing false None None [] None) ex_state_missing)
     = Err ValueErr /\
   fst (run_helper ex_ct 0 (HWithoutItem 2) (mkh [VStr 0] true true VMissing false None None [] None) ex_state_missing)
-    = Err KeyErr.
+    = Err KeyErr /\
+  (* the default calling convention on the frozen twin: A().with_x(7) *)
+  missing_copy_guard ex_ct_frozen ex_state_missing 0 1 KList = true /\ missing_copy_guard ex_ct_frozen ex_state_missing 0 3 KSet = true /\
+  run_helper ex_ct_frozen 0 (HWithItem 1) (mkh [VInt 7] false true VMissing false None None [] None) ex_state_missing
+    = (Ok (VRef 2), mkst [OInst 0 []; OList [VInt 7]; OInst 0 [(1, VRef 1)]] 0 None).
 Proof. vm_compute. repeat split. Qed.
 
 (* update_<item> / transform_<item> ON DICTS AND SETS of proper scalars (Inst/ElemRefine9.v), in
@@ -930,6 +972,7 @@ Print Assumptions C06_elem_helpers_copy_refine_guarded_partial.
 Print Assumptions C06_list_change_item_copy_refine_guarded_partial.
 Print Assumptions C06_copy_guard_examples.
 Print Assumptions C06_elem_helpers_missing_container_refine_guarded_partial.
+Print Assumptions C06_elem_helpers_missing_container_copy_refine_guarded_partial.
 Print Assumptions C06_missing_guard_examples.
 Print Assumptions C06_dict_set_change_item_refine_guarded_partial.
 Print Assumptions C06_dict_set_change_examples.
